@@ -400,6 +400,10 @@ class Den:
         fn = e.function
         name = fn.name if isinstance(fn, prim.Variable) else repr(fn)
         ps = [as_int(self.rec(p, env)) for p in e.parameters]
+        if name == "pytato.zero":
+            # documented meaning (zeros_like / dead-code elimination): the
+            # constant 0, whatever the argument
+            return z3.IntVal(0)
         return uf("call_" + name, len(ps))(*ps)
 
     def d_NaN(self, e, env):
